@@ -1072,10 +1072,24 @@ class DiskRefsContainer(RefsContainer):
                 # reread cached refs from disk, while holding the lock
                 packed_refs = self.get_packed_refs().copy()
 
+                to_prune: dict[Ref, ObjectID | None] = {}
                 for ref, target in new_refs.items():
                     # sanity check
                     if ref == HEADREF:
                         raise ValueError("cannot pack HEAD")
+
+                    if verify_loose:
+                        # The caller read the value without holding any lock.
+                        # Pack what the loose ref holds now, and leave the ref
+                        # alone if it was deleted or packed in the meantime,
+                        # so that a deleted ref cannot come back.
+                        current = self.read_loose_ref(ref)
+                        if current is None or not valid_hexsha(current):
+                            continue
+                        target = ObjectID(current)
+                        to_prune[ref] = target
+                    else:
+                        to_prune[ref] = None
 
                     if target is not None:
                         packed_refs[ref] = target
@@ -1087,8 +1101,8 @@ class DiskRefsContainer(RefsContainer):
             # Only now that the new packed-refs file is in place may the
             # loose refs it supersedes go away; removing them earlier loses
             # the refs if writing packed-refs fails or the process dies.
-            for ref, target in new_refs.items():
-                self._prune_loose_ref(ref, target if verify_loose else None)
+            for ref, expected in to_prune.items():
+                self._prune_loose_ref(ref, expected)
         finally:
             # Do not stat the path and associate that identity with the data
             # just written: another writer can replace packed-refs after the
